@@ -693,8 +693,11 @@ def wl_join(join: JoinType, n_up: int = 2, threshold: int = 0) -> Workflow:
     return workflow([stage("r")] + ups + [j, stage("z", ["j"])])
 
 
-def wl_poll(n: int = 2) -> Workflow:
-    return workflow([stage("a", tasks={"t1": {"kind": "poll", "n": n}}), stage("b", ["a"])])
+def wl_poll(n: int = 2, then_ok: bool = False) -> Workflow:
+    tasks: dict[str, dict[str, Any]] = {"t1": {"kind": "poll", "n": n}}
+    if then_ok:
+        tasks["t2"] = dict(OK)
+    return workflow([stage("a", tasks=tasks), stage("b", ["a"])])
 
 
 def wl_transient(n: int, with_ctx: bool = False, pos: int = 1, ntasks: int = 1) -> Workflow:
@@ -819,6 +822,7 @@ WORKLOADS: dict[str, Callable[[], Workflow]] = {
     "suspend2": lambda: wl_suspend(signals=2),
     "mutex": wl_mutex,
     "choice": wl_choice,
+    "poll2_t2": lambda: wl_poll(2, then_ok=True),
     "diamond_j2": lambda: wl_diamond(join_tasks=2),
     "after2": lambda: wl_synthetic("after2"),
     "after2_fail": lambda: wl_synthetic("after2_fail"),
